@@ -149,8 +149,12 @@ func init() {
 			if c.IsConst() && c.k != 0 {
 				return nil
 			}
-			if r.branch(r.ts.BNot(c)) {
-				r.violation(label, "assertion "+label+" fails")
+			if viol, m := r.assertBranch(r.ts.BNot(c)); viol {
+				if m != nil {
+					r.recordViolation(label, "assertion "+label+" fails", m)
+				} else {
+					r.violation(label, "assertion "+label+" fails")
+				}
 				panic(&pathEnd{kind: "violation", msg: label})
 			}
 			return nil
